@@ -14,6 +14,15 @@ Definition ub_pl : Q := 1.
 Definition plurality_pairs (W L : list cand) : list (cand * cand) :=
   flat_map (fun w => map (fun l => (w, l)) L) W.
 
+(* Assertion.make_all_assertions (L2159-2221), plurality branch: winrs = con.winner,
+     losrs = list(set(con.candidates) - set(winrs))
+   i.e. every candidate that is not a reported winner, once (a Python set; the enumeration order is unspecified and
+   irrelevant to the family of assertions, this is the one in candidate order) *)
+Definition other_candidates (cands W : list cand) : list cand :=
+  filter (fun c => negb (existsb (Z.eqb c) W)) (nodup Z.eq_dec cands).
+Definition all_plurality_pairs (cands W : list cand) : list (cand * cand) :=
+  plurality_pairs W (other_candidates cands W).
+
 (* Assertion.make_supermajority_assertion (L1953-2041):
      cands = loser.copy(); cands.append(winner)
      assort = CVR.as_vote(c.get_vote_for(contest.id, winner)) / (2 * contest.share_to_win)
